@@ -1,6 +1,7 @@
 import XlModel.Settings
 import XlModel.Protection
 import XlModel.CondFmt
+import XlModel.DvDelete
 import XlModel.Drv.Util
 namespace XlModel.Drv.C18
 open XlModel XlModel.Settings XlModel.Drv
@@ -59,6 +60,39 @@ def showRec (r : Rec) : String :=
 def showOut : Out Rec → String
   | .ok r => "ok " ++ showRec r
   | .panic => "PANIC"
+
+/-! `dvdel <hex sqref>,<hex sqref>,... <hex delete sqref>` -/
+
+def cellLe (a b : Int × Int) : Bool := a.1 < b.1 || (a.1 == b.1 && a.2 ≤ b.2)
+
+def insertCell (x : Int × Int) : List (Int × Int) → List (Int × Int)
+  | [] => [x]
+  | y :: ys => if cellLe x y then x :: y :: ys else y :: insertCell x ys
+
+def sortCells (l : List (Int × Int)) : List (Int × Int) := l.foldr insertCell []
+
+def showCells (l : List (Int × Int)) : String :=
+  ",".intercalate ((sortCells l).map fun c => toString c.1 ++ "." ++ toString c.2)
+
+def mapM' {α β ε : Type} (f : α → Except ε β) : List α → Except ε (List β)
+  | [] => .ok []
+  | a :: as =>
+    match f a with
+    | .error e => .error e
+    | .ok b =>
+      match mapM' f as with
+      | .error e => .error e
+      | .ok bs => .ok (b :: bs)
+
+def runDvDel (rules : List (List Char)) (del : List Char) : String :=
+  match DvDelete.flatSqref del with
+  | .error _ => "E_DVDEL"
+  | .ok d =>
+    match mapM' DvDelete.flatSqref rules with
+    | .error _ => "E_DVDEL"
+    | .ok rs =>
+      let out := DvDelete.deleteRules rs d
+      if out.isEmpty then "ok -" else "ok " ++ ";".intercalate (out.map showCells)
 
 /-- split a word list at the `|` separators -/
 def splitBar (ws : List String) : List (List String) :=
@@ -269,6 +303,10 @@ def step (st : St) (w : List String) : St × String :=
   | ["fpn", a, b] =>
     match a.toNat?, b.toNat? with
     | some a, some b => (st, "ok " ++ toString (getFirstPage (setFirstPage (setFirstPage none a) b)))
+    | _, _ => (st, "bad-op")
+  | ["dvdel", rs, d] =>
+    match (rs.splitOn ",").mapM unhexS, unhexS d with
+    | some rules, some del => (st, runDvDel rules del)
     | _, _ => (st, "bad-op")
   | ["cfnew"] => ({ st with cf := [] }, "ok")
   | ["cfset", sheet, r, n, _] =>
